@@ -20,6 +20,10 @@ type Subscription struct {
 	field *Field
 	args  map[string]interface{}
 
+	// vars are the variable values of the request that made the
+	// subscription, the selection set applied to each event can use them.
+	vars map[string]interface{}
+
 	// evType is the type of the events, the type of the subscription
 	// field. It is kept here and not on the field since the field is part
 	// of the parsed request which can be resolved more than once.
